@@ -6,7 +6,7 @@ git -C /repo status --short | grep -q . && { echo "/repo not clean"; exit 2; }
 rm -rf /var/tmp/evidence.keep; cp -r evidence /var/tmp/evidence.keep
 trap 'rm -rf evidence; mv /var/tmp/evidence.keep evidence' EXIT
 for d in seeded/*/; do
-  id=$(basename $d); p=${id%%-*}
+  id=$(basename $d); p=${id:0:3}
   if ! git -C /repo apply --check $PWD/$d/patch.diff 2>/dev/null; then echo "$id: patch no longer applies to HEAD"; continue; fi
   git -C /repo apply $PWD/$d/patch.diff
   out=$(./check $p 2>&1 | grep "^VIOLATION\|^\[C"); rc=$(echo "$out" | grep -c "^VIOLATION")
